@@ -735,6 +735,8 @@ package astisub
 //@ func ReadFromTTML(i io.Reader) (o *Subtitles, err error)
 //@   prop C08 C18
 //@   requires i != nil
+//@   loop 6: invariant l != nil && s != nil
+//@   loop 7: invariant l != nil && s != nil
 //@ end
 
 //@ func (s Subtitles) WriteToTTML(o io.Writer, opts ...WriteToTTMLOption) (err error)
